@@ -16,7 +16,7 @@ from . import core
 from .core import SInt, SBool, Ctx, PathAbort, mk, bvv
 
 _int = builtins.int
-HASH_MODE = ['const']      # 'const' | 'uf'
+HASH_MODE = ['const']      # 'const' | 'uf' | 'exact' (identity on [0, 2^61-1), uninterpreted elsewhere)
 _hash_uf = {}
 
 
@@ -174,6 +174,14 @@ def sym_hash(x):
     if isinstance(x, (SInt, SBool)) or (isinstance(x, _int) and not isinstance(x, bool)):
         if HASH_MODE[0] == 'const':
             return 0
+        if HASH_MODE[0] == 'exact':
+            # CPython: hash(n) == n for 0 <= n < 2**61 - 1 (an uninterpreted function would admit models no real int realises)
+            if isinstance(x, _int) and not isinstance(x, SInt):
+                return builtins.hash(x)
+            if isinstance(x, SBool):
+                return SInt.of_bool(x)
+            if x.lo is not None and x.lo >= 0 and x.hi < (1 << 61) - 1:
+                return x
         # uninterpreted function of the value
         f = _hash_uf.get(Ctx.W)
         if f is None:
